@@ -41,8 +41,6 @@ pub open spec fn counter(w: World) -> u32 {
 }
 
 // ---- world transformers ----
-pub open spec fn w_auth(w: World, a: Address) -> World { World { auths: w.auths.insert(a), ..w } }
-pub open spec fn w_event(w: World, ev: SV) -> World { World { events: w.events.push(ev), ..w } }
 pub open spec fn opt_addr(o: Option<&Address>) -> Option<Address> {
     match o { Some(a) => Some(*a), None => None }
 }
